@@ -114,6 +114,14 @@ check("C15", "model_checking",
       "Trusted: the reference values and format renderers in checks/c15.py. preprocess is pinned to false; wall-clock fields are not compared. Genuine defects (--config bypasses normalisation; TOML/--config values are not type-checked) are listed known findings.",
       "exhaustive enumeration of the configuration schema x formats with cross-format differential and reference oracle", "DESIGN.md 5/C15")
 
+check("C13", "model_checking",
+      "Abstract relation graphs are enumerated exhaustively (all USE DAGs on 3 modules x submodule chains x user configurations; extension forests x composition-edge "
+      "subsets on 3 types; all 512 call digraphs with self-loops on 3 procedures, with program / generic-interface variants) x graph_maxdepth x graph_maxnodes x "
+      "show_proc_parent, plus `graph: false` on each single entity. The DOT source of every graph object built by the real Documentation() is parsed and its node and "
+      "edge sets compared with the reference (whole relation for project-wide graphs; reference hop expansion with the documented limits for per-entity graphs, forward and inverse); every edge must join declared nodes.",
+      "Trusted: the reference BFS (hop added entirely or not at all) and relation extraction in checks/c13.py; `dot` is stubbed (DOT source is the observation). The graph:false node defect is a listed known finding.",
+      "exhaustive enumeration of small relation graphs x limit settings against a reference graph construction", "DESIGN.md 5/C13")
+
 ALL = [f"C{i:02d}" for i in range(1, 21)]
 PENDING_REASON = "check not built yet in this round (planned: see DESIGN.md section 5); will be claimed once its exhaustive check exists"
 
